@@ -88,11 +88,11 @@ theorem autoStyle_folded {o : Opts} {v : List Char} (h : autoStyle o false v = s
 /-- The automatic folded block round-trips at document level (root, map value, seq item, enum newtype
 payload): whenever the writer selects it. -/
 theorem folded_doc (o : Opts) (p : SerScalar.Pos) (v : List Char) (hp : blockSimplePos p = true)
-    (hy : o.yaml12 = false) (hstep : 1 ≤ o.indentStep)
+    (hstep : 1 ≤ o.indentStep)
     (hauto : autoStyle o false v = some .folded) :
     ∃ t, emitDoc o p v = .ok t ∧ readDoc (toRead p) t = some (.folded, v) := by
   obtain ⟨hq, hnl, hpv⟩ := autoStyle_folded hauto
-  obtain ⟨_, hhead, _, _, hsafe⟩ := pvs_unfold hpv
+  obtain ⟨_, hhead, _, _, hsafe, _⟩ := pvs_unfold hpv
   have hnonl : ∀ c ∈ v, c ≠ '\n' := by
     intro c hc e; subst e
     have : v.contains '\n' = true := by simpa using hc
@@ -123,8 +123,7 @@ theorem folded_doc (o : Opts) (p : SerScalar.Pos) (v : List Char) (hp : blockSim
       apply Bool.eq_false_iff.mpr; intro e; have := eq_of_beq e; subst this; revert hc0; decide
     simp [List.takeWhile, this]
   let body := '>' :: (['-'] ++ '\n' :: joinLines (segs.map (spaces N ++ ·)))
-  have hemit : emitDoc o p v = .ok (opening (toRead p) ++ body) := by
-    have hpre : preamble o = [] := by simp [preamble, hy]
+  have hemit : emitDoc o p v = .ok (preamble o ++ (opening (toRead p) ++ body)) := by
     have hV : writePlainOrQuoted ['V'] o.quoteAll = ['V'] := by rw [hq]; decide
     have hser : ∀ cx : Ctx, cx.inFlow = false → blockBase cx = 0 →
         serializeStr o cx v = .ok ((if cx.pendingSpace then [' '] else []) ++ writeIndent o cx 0 ++ body) := by
@@ -134,16 +133,16 @@ theorem folded_doc (o : Opts) (p : SerScalar.Pos) (v : List Char) (hp : blockSim
       simp only
       have hbase : (if cx.pendingSpace = true then cx.mapDepth.getD cx.depth else cx.afterDash.getD cx.depth) = 0 := hb
       rw [hbase, htrim, hfls]
-      simp only [Nat.lt_irrefl, decide_false, Bool.false_and, Bool.false_eq_true, if_false, Nat.sub_self, chompInd]
+      simp only [Nat.lt_irrefl, decide_false, Bool.false_and, Bool.and_false, Bool.or_self, Bool.false_eq_true, if_false, Nat.sub_self, chompInd]
       rw [writeFoldedBlock_single v _ _ _ hnonl]
       rw [show o.indentStep * (0 + 1) = N from rfl] at *
       rw [hfold]
       simp [body]
     cases p <;> first
       | (cases hp; done)
-      | (simp only [emitDoc, hpre, hV]
+      | (simp only [emitDoc, hV]
          rw [hser _ rfl rfl]
-         simp [writeIndent, hy, spaces, opening, toRead])
+         cases hy : o.yaml12 <;> simp [writeIndent, hy, spaces, opening, toRead, preamble])
   refine ⟨_, hemit, ?_⟩
   have hlines : ∀ l ∈ segs.map (spaces N ++ ·), ∀ c ∈ l, c ≠ '\n' ∧ c ≠ '\r' := by
     intro l hl c hc
@@ -209,9 +208,8 @@ theorem folded_doc (o : Opts) (p : SerScalar.Pos) (v : List Char) (hp : blockSim
     rw [blockBody_fold N hN segs hsegs2 true [] hsne]
     simp [chompTail, hjoin]
   rw [hread] at hnode
-  unfold readDoc
-  have hstrip : stripBom (opening (toRead p) ++ body) = opening (toRead p) ++ body := by
-    cases p <;> first | rfl | (cases hp; done)
+  obtain ⟨hh1, hh2⟩ := opening_head (toRead p) '>' (['-'] ++ '\n' :: joinLines (segs.map (spaces N ++ ·))) (by decide) (by decide)
+  rw [readDoc_frame o (toRead p) _ hh1 hh2]
   have hpc : ((opening (toRead p) ++ body).head? == some '%') = false := by
     cases p <;> first | rfl | (cases hp; done)
   have hnul : (opening (toRead p) ++ body).any isNul = false := by
@@ -231,8 +229,10 @@ theorem folded_doc (o : Opts) (p : SerScalar.Pos) (v : List Char) (hp : blockSim
       · subst e1; revert hcn; decide
     simp only [body, List.any_append, List.any_cons, h1, h3]
     decide
-  rw [hstrip]
-  simp only [hpc, hnul, Bool.or_self, Bool.false_eq_true, if_false]
+  show readDocBody (toRead p) (opening (toRead p) ++ body) = _
+  unfold readDocBody
+  rw [hpc, hnul]
+  simp only [Bool.or_self, Bool.false_eq_true, if_false]
   show (match stripOpening (toRead p) (opening (toRead p) ++ '>' :: (['-'] ++ '\n' :: joinLines (segs.map (spaces N ++ ·)))) with
     | none => none
     | some (s, col0, parent) => readNode (toRead p) s col0 parent) = _
